@@ -150,6 +150,22 @@ def main():
                 store.store_blob(st["key"], make_value(st["store"]), None)
                 meta = json.load(open(os.path.join(d, "int", "blobs", st["key"] + ".meta")))
                 out.append("S:" + meta["protocol"])
+            elif "store_killed" in st:
+                # the process is killed between the rename of the blob and the rename of its metadata
+                real_replace = os.replace
+
+                def dying_replace(src, dst, *a, **k):
+                    if str(dst).endswith(".meta"):
+                        print("@@RESULT@@" + json.dumps(out + ["K"]))
+                        sys.stdout.flush()
+                        os._exit(0)
+                    return real_replace(src, dst, *a, **k)
+                os.replace = dying_replace
+                try:
+                    store.store_blob(st["key"], make_value(st["store_killed"]), None)
+                finally:
+                    os.replace = real_replace
+                out.append("S:not-killed")
             elif "fetch" in st:
                 v = store.fetch_blob(st["key"])
                 out.append("F:" + ("equal" if equal(v, make_value(st["fetch"])) else "DIFFERENT:" + repr(v)[:60]))
